@@ -174,6 +174,8 @@ def run_case(case: dict):
         ref = c13.reference(data[: hdr_end + max(0, (len(data) - hdr_end) // 2)], "reset")
         if ref[0] == "resp":
             ref = ("grey-or", ref)  # complete non-2x header, then the upstream reset/cut the connection: 43 or relay
+        elif fault == "reset-mid-body" and ref[0] == "grey-or" and ref[1][0] == "resp":
+            ref = ("exc",)  # the upstream reset the connection after a 2x header: never a 'complete' relay
     elif fault == "stall-mid-body":
         ref = c13.reference(data[:hdr_end] + data[hdr_end: hdr_end + 3], "stall")
     else:
@@ -182,6 +184,12 @@ def run_case(case: dict):
         # bytes after a non-2x header: a malformed upstream response (43 or relay of the header)
         ref = ("grey-or", ref)
     info["ref"] = ref[0]
+    if ref[0] == "resp" and fault is None:
+        m0 = ref[2]
+        if "\r" in m0 or "\n" in m0 or len(m0.encode("utf-8", "replace")) > 1024:
+            if status != 43:
+                return viol("malformed-upstream-not-mapped-to-43", f"upstream meta of {len(m0)} chars cannot be relayed; client got {S[:60]!r}", **info)
+            return ok(**info)
     if ref[0] in ("exc", "pending"):
         if status != 43:
             # a non-2x header followed by a fault is still a complete upstream answer
@@ -200,7 +208,10 @@ def run_case(case: dict):
     raw_body = data[hdr_end:] if fault is None else data[hdr_end: hdr_end + max(0, (len(data) - hdr_end) // 2)]
     meta_bad = "\r" in rmeta or "\n" in rmeta or len(rmeta.encode("utf-8", "replace")) > 1024
     if meta_bad:
-        return grey("unsendable-upstream-meta", **info)  # well-formedness was checked above
+        # a header that cannot be relayed (bare CR/LF in the meta, meta > 1024 bytes) is a malformed upstream response
+        if status != 43:
+            return viol("malformed-upstream-not-mapped-to-43", f"upstream meta of {len(rmeta)} chars cannot be relayed; client got {S[:60]!r}", **info)
+        return ok(**info)
     exp_hdr = f"{rstatus} {rmeta}\r\n".encode("utf-8")
     if not (20 <= rstatus <= 29):
         if S != exp_hdr:
